@@ -223,6 +223,9 @@ namespace vh
         size_t n = 0;          // elements
         size_t slack = 0;      // bytes between first usable page start and p
     };
+    // optional observers (the OpenMP stand-in registers arenas for its snapshots)
+    static void (*on_alloc)(const char *, const void *, size_t) = nullptr;
+    static void (*on_free)(const void *) = nullptr;
     inline GBuf galloc(size_t nelem, uint64_t fill)
     {
         GBuf g;
@@ -246,6 +249,8 @@ namespace vh
         memset(g.base + ps, 0xC7, g.slack);
         for (size_t i = 0; i < nelem; i++)
             g.p[i] = fill;
+        if (on_alloc)
+            on_alloc("arena", g.p, bytes);
         return g;
     }
     inline bool gslack_ok(const GBuf &g)
@@ -258,6 +263,8 @@ namespace vh
     }
     inline void gfree(GBuf &g)
     {
+        if (g.base && on_free)
+            on_free(g.p);
         if (g.base)
             munmap(g.base, g.maplen);
         g.base = nullptr;
